@@ -44,7 +44,8 @@ TArith == LET r == Events[l] IN
   /\ UNCHANGED seen
 TMathFn == LET r == Events[l] IN
   /\ IsEvent("MathFn") /\ r.type \in DOMAIN Shapes /\ Shapes[r.type] = "Scalar" /\ r.n > 0
-  /\ r.fn \in {"abs", "cbrt", "exp", "log", "log2", "log10", "pow", "sqrt"}
+  /\ r.fn \in {"abs", "cbrt", "exp", "log", "log2", "log10", "pow", "sqrt",
+              "pow_float_exponent", "pow_double_exponent", "pow_long_double_exponent", "pow_int_exponent"}   \* exponent of another arithmetic type
   /\ Flag(r.bad = 0, [cls |-> "mathfn", type |-> r.type, num |-> r.num \o ":" \o r.fn])
   /\ UNCHANGED seen
 (* C17: construction, SetValue and MutableValue store exactly the given numbers (full-precision values of the type) *)
